@@ -40,6 +40,23 @@ CfgsGen  == AdmBasic \cup AdmMore
 
 ASSUME \A c \in AdmBasic \cup AdmMore \cup AdmFew : Admissible(c)
 
+\* ---- the local clock during one clk.Sleep call, in half intervals:
+\* slp = real time until Sleep returns (2 = on time), stp = step of the reading
+El(a, b) == [slp |-> a, stp |-> b]
+ElapseSeq == <<El(2, 0),                                   \* on time
+               El(3, 0), El(4, 0), El(6, 0), El(200, 0),   \* late by 1/2, 1, 2, 99 intervals
+               El(2, 2), El(2, 4), El(2, 198),             \* stepped forwards by 1, 2, 99 intervals
+               El(2, 0 - 1), El(2, 0 - 2),                 \* stepped back: the reading moves by 1/2, 0
+               El(2, 0 - 8), El(2, 0 - 200),               \* ... and goes backwards
+               El(200, 0 - 198)>>                          \* late, and stepped back to "on time"
+ElapseAll == {ElapseSeq[i] : i \in DOMAIN ElapseSeq}
+ElapseOnTime == {OnTime}
+\* genall: one behaviour per VIEW-distinct state, so the choice is made a
+\* function of the (VIEW-visible) sleeping state to spread it over ElapseSeq
+GenAllElapse ==
+  {ElapseSeq[((refOff + 2 * peerOff + 3 * corr + 5 * Len(refSlots) + 7 * Len(peerSlots) + 4096)
+              % Len(ElapseSeq)) + 1]}
+
 \* ---- seeded sampling for `tlc -simulate` (cfg: OutcomeVecs <- GenVecs,
 \* Arrivals <- GenArrivals): one random member of the specification's choice
 \* set, failures over-represented so that stale slots are common
